@@ -56,7 +56,7 @@ Theorem C01_words_and_licenses_accounted_default : forall O, is_space O 32%N = t
   Licensing.parse_tokens O T strict false text = Ok e ->
   exists ptoks gs, lic_tokenize O T strict false text = Ok ptoks /\ literals e = tok_atoms ptoks /\
                    concat gs = filter (is_word_piece O) (pieces O text) /\
-                   Forall2 (ptok_acc (kw_acc O) (sym_acc O T text)) ptoks gs.
+                   Forall2 (ptok_acc O text (kw_acc O) (sym_acc O T text)) ptoks gs.
 Proof. exact parse_accounted. Qed.
 Print Assumptions C01_words_and_licenses_accounted_default.
 
@@ -64,7 +64,7 @@ Theorem C01_words_and_licenses_accounted_simple : forall O, is_space O 32%N = tr
   Licensing.parse_tokens O T strict true text = Ok e ->
   exists ptoks gs, lic_tokenize O T strict true text = Ok ptoks /\ literals e = tok_atoms ptoks /\
                    concat gs = filter (is_word_piece O) (pieces O text) /\
-                   Forall2 (ptok_acc (kw_acc_s O) (sym_acc_s O T)) ptoks gs.
+                   Forall2 (ptok_acc O text (kw_acc_s O) (sym_acc_s O T)) ptoks gs.
 Proof. exact parse_accounted_simple. Qed.
 Print Assumptions C01_words_and_licenses_accounted_simple.
 
